@@ -50,5 +50,5 @@ Deliverables (write them into {wt}/_seed/):
   {wt}/_seed/{la}/patch.diff  (output of `git -C {wt} diff -- cij` with ONLY the first change applied)   {wt}/_seed/{la}/demo.py   {wt}/_seed/{la}/notes.md
   {wt}/_seed/{lb}/patch.diff  (ONLY the second change applied)                                           {wt}/_seed/{lb}/demo.py   {wt}/_seed/{lb}/notes.md
 notes.md: which clause of the property breaks, what is needed for it to manifest (one line starting with "NEEDS:"), and the exact commands you ran with their outcome (demo on unchanged tree: pass; demo with patch: fail; test suite with patch: same results as without).
-Procedure hint: make the first change, verify (a)-(c), save the diff, `git -C {wt} checkout -- cij`, then do the same for the second. Leave the worktree's cij/ directory UNCHANGED (clean `git status` for cij/) when you finish. Each demo.py must be runnable as `cd {wt} && PYTHONPATH={wt} /venv/bin/python _seed/{la}/demo.py` and must exit 0 on the unchanged tree.
+Do NOT use `git stash` (the stash is shared by all worktrees of the repository and other agents are working in theirs): toggle your change with `git apply` / `git apply -R` / `git checkout -- cij`. Procedure hint: make the first change, verify (a)-(c), save the diff, `git -C {wt} checkout -- cij`, then do the same for the second. Leave the worktree's cij/ directory UNCHANGED (clean `git status` for cij/) when you finish. Each demo.py must be runnable as `cd {wt} && PYTHONPATH={wt} /venv/bin/python _seed/{la}/demo.py` and must exit 0 on the unchanged tree.
 Finish with a short report: one paragraph per change (what changed, why it breaks the property, what it needs to manifest).""")
